@@ -100,7 +100,8 @@ def main():
         sh(f"git -C /repo worktree remove --force {wt}")
         sh("git -C /repo worktree prune")
     ok = (conf.get("applies") and conf["demo_with_change"]["exit"] != 0 and conf["demo_without_change"]["exit"] == 0
-          and conf.get("test_suite_with_change", {}).get("failed") in ([], ["test/test_cmdline.py::test_cmdline_simple"]))
+          and conf.get("test_suite_with_change", {}).get("failed") in ([], ["test/test_cmdline.py::test_cmdline_simple"])
+          and " passed" in conf.get("test_suite_with_change", {}).get("summary", ""))
     conf["confirmed"] = bool(ok)
     os.makedirs(dst, exist_ok=True)
     if src != dst:
